@@ -160,12 +160,14 @@ CHECKS["C12"] = {
          "shards": {"quick": ["nvaa=0,1"] + ["nvaa=2;gov.ec.digits=%d;v.tc.digits#0=%d;v.ec.digits=1,2;v.tc.digits#1=1,2;nreq=%d" % (a, b, r) for a in (1, 2) for b in (1, 2) for r in (1, 2)],
                     "thorough": ["nvaa=0,1"] + ["nvaa=2;gov.ec.digits=%d;v.tc.digits#0=%d;nreq=%d" % (a, b, r) for a in _D4 for b in _D4 for r in (1, 2)]},
          "timeout": {"quick": 2400, "thorough": 30000}},
+        {"pkg": "./cmd/guardiand", "entry": "VerifC12_FindMissing", "reach": ["answered", "rejected"], "opts": {"exactfmt": "true", "z3": "z3-new"}},
         {"pkg": "./pkg/publicrpc", "entry": "VerifC12_PublicRPC", "reach": ["rpc-present", "rpc-absent", "batch-answered", "batch-rejected"],
          "opts": {"summary": "vaaid", "z3": "z3-new"},
          "shards": {"quick": ["nvaa=0,1"] + ["nvaa=2;q.ec.class=%d;q.tc.class=%s" % (a, b) for a in (0, 1, 2) for b in ("0", "1,2")],
                     "thorough": ["nvaa=0,1"] + ["nvaa=2;q.ec.class=%d;q.tc.class=%s" % (a, b) for a in (0, 1, 2) for b in ("0", "1,2")]}},
     ],
-    "bounds": {"quick": {"public rpc": "0..2 stored VAAs with fully symbolic identifiers; one request with 32-bit chain numbers (in range / above 65535 / negative), the address string in six forms (lower/upper-case hex of 32 bytes, 31 bytes, 33 bytes, a non-hex character, empty), any sequence; batch of 0, 1, 2 or 21 sequences; GetSignedVAA and GetNonGovernanceVAABatch as real code over the db code and the key-value model (identifier key summarised as injective - licensed by the key lemmas)",
+    "bounds": {"quick": {"operator gap query": "FindMissingMessages over 0..2 stored VAAs (one-digit chains, address bytes 0 and 31 symbolic, sequence 0..3): 32-bit chain numbers in range or wrapping onto a stored chain, address string of 32/31/33 bytes or invalid hex",
+                         "public rpc": "0..2 stored VAAs with fully symbolic identifiers; one request with 32-bit chain numbers (in range / above 65535 / negative), the address string in six forms (lower/upper-case hex of 32 bytes, 31 bytes, 33 bytes, a non-hex character, empty), any sequence; batch of 0, 1, 2 or 21 sequences; GetSignedVAA and GetNonGovernanceVAABatch as real code over the db code and the key-value model (identifier key summarised as injective - licensed by the key lemmas)",
                          "key lemmas": "two fully symbolic identifiers: every 16-bit emitter/target chain id (all five decimal digit counts), every 32-byte address, sequences < 10",
                          "store": "0..2 stored VAAs with symbolic ids (chain ids from the digit classes 1,2,3,5 digits, address bytes 0 and 31 symbolic, sequence 0..3 - with one-digit chain ids also 0..12, i.e. one- and two-digit sequence keys -, ids may coincide) + one symbolic query id; lookup, gap scan and governance batch on the real db code over a key-value model of badger",
                          "unwind": 3000},
